@@ -1717,7 +1717,10 @@ Examples:
         def func(x, *args, **kwds):
             xtype = type(x)
             x = asarray(list(x)) #XXX: faster to use array(x, copy=True) ?
-            x[[i for i in index if i < len(x)]] = target
+            at = [i for i in index if i < len(x)]
+            if hasattr(target, '__len__'): # keep the targets of in-range indices
+                x[at] = [t for (i,t) in zip(index,target) if i < len(x)]
+            else: x[at] = target
             if not type(x) is xtype: x = xtype(x) #XXX: xtype(x.tolist()) ?
             return f(x, *args, **kwds)
         func.__wrapped__ = f   #XXX: getattr(f, '__wrapped__', f) ?
